@@ -23,6 +23,7 @@ import (
 	"sort"
 	"strconv"
 	"strings"
+	"syscall"
 	"testing"
 	"testing/synctest"
 
@@ -65,15 +66,122 @@ func runHelper(args ...string) (hout, error) {
 
 type dirState map[string]string // file name -> content
 
+// aliasKey is not a file: its value lists the names that are hard links to
+// one file ("a|b;c|d", canonical).  A write or truncation through one name of
+// such a group changes what every name of the group holds, which is how a
+// write to a "temporary" file can destroy the file it was meant to replace.
+const aliasKey = "\x00hard-links"
+
+func (s dirState) groups() [][]string {
+	var g [][]string
+	for _, grp := range strings.Split(s[aliasKey], ";") {
+		if grp != "" {
+			g = append(g, strings.Split(grp, "|"))
+		}
+	}
+	return g
+}
+
+func (s dirState) setGroups(g [][]string) {
+	var out []string
+	for _, grp := range g {
+		var names []string
+		for _, n := range grp {
+			if _, ok := s[n]; ok && n != aliasKey {
+				names = append(names, n)
+			}
+		}
+		if len(names) >= 2 {
+			sort.Strings(names)
+			out = append(out, strings.Join(names, "|"))
+		}
+	}
+	sort.Strings(out)
+	if len(out) == 0 {
+		delete(s, aliasKey)
+	} else {
+		s[aliasKey] = strings.Join(out, ";")
+	}
+}
+
+// aliases returns the other names of the file called name.
+func (s dirState) aliases(name string) []string {
+	for _, grp := range s.groups() {
+		for _, n := range grp {
+			if n == name {
+				var o []string
+				for _, m := range grp {
+					if m != name {
+						o = append(o, m)
+					}
+				}
+				return o
+			}
+		}
+	}
+	return nil
+}
+
+// unalias takes name out of its group; join puts it into the group of other.
+func (s dirState) unalias(name string) {
+	g := s.groups()
+	for i, grp := range g {
+		var o []string
+		for _, n := range grp {
+			if n != name {
+				o = append(o, n)
+			}
+		}
+		g[i] = o
+	}
+	s.setGroups(g)
+}
+
+func (s dirState) join(name, other string) {
+	g := s.groups()
+	for i, grp := range g {
+		for _, n := range grp {
+			if n == other {
+				g[i] = append(g[i], name)
+				s.setGroups(g)
+				return
+			}
+		}
+	}
+	s.setGroups(append(g, []string{other, name}))
+}
+
+func (s dirState) files() []string {
+	var ks []string
+	for k := range s {
+		if k != aliasKey {
+			ks = append(ks, k)
+		}
+	}
+	sort.Strings(ks)
+	return ks
+}
+
 func readDir(dir string) dirState {
 	st := dirState{}
 	ents, _ := os.ReadDir(dir)
+	byIno := map[uint64][]string{}
 	for _, e := range ents {
 		if e.Type().IsRegular() {
 			b, _ := os.ReadFile(filepath.Join(dir, e.Name()))
 			st[e.Name()] = string(b)
+			if fi, err := e.Info(); err == nil {
+				if sys, ok := fi.Sys().(*syscall.Stat_t); ok && sys.Nlink > 1 {
+					byIno[sys.Ino] = append(byIno[sys.Ino], e.Name())
+				}
+			}
 		}
 	}
+	var g [][]string
+	for _, names := range byIno {
+		g = append(g, names)
+	}
+	st.setGroups(g)
 	return st
 }
 
@@ -88,8 +196,14 @@ func (s dirState) clone() dirState {
 func (s dirState) writeTo(dir string) {
 	os.RemoveAll(dir)
 	os.MkdirAll(dir, 0o700)
-	for k, v := range s {
-		os.WriteFile(filepath.Join(dir, k), []byte(v), 0o600)
+	for _, k := range s.files() {
+		os.WriteFile(filepath.Join(dir, k), []byte(s[k]), 0o600)
+	}
+	for _, grp := range s.groups() {
+		for _, n := range grp[1:] {
+			os.Remove(filepath.Join(dir, n))
+			os.Link(filepath.Join(dir, grp[0]), filepath.Join(dir, n))
+		}
 	}
 }
 
@@ -107,10 +221,12 @@ func (s dirState) equal(o dirState) bool {
 
 func (s dirState) summary() string {
 	var ks []string
-	for k, v := range s {
-		ks = append(ks, fmt.Sprintf("%s:%d", k, len(v)))
+	for _, k := range s.files() {
+		ks = append(ks, fmt.Sprintf("%s:%d", k, len(s[k])))
 	}
-	sort.Strings(ks)
+	if a := s[aliasKey]; a != "" {
+		ks = append(ks, "hard-links:"+a)
+	}
 	return strings.Join(ks, " ")
 }
 
@@ -121,10 +237,13 @@ var reRandomPart = regexp.MustCompile(`[0-9]{4,}`)
 // names leave files of the same shape, not of the same name.
 func (s dirState) shape() string {
 	var ks []string
-	for k, v := range s {
-		ks = append(ks, fmt.Sprintf("%s:%d", reRandomPart.ReplaceAllString(k, "#"), len(v)))
+	for _, k := range s.files() {
+		ks = append(ks, fmt.Sprintf("%s:%d", reRandomPart.ReplaceAllString(k, "#"), len(s[k])))
 	}
 	sort.Strings(ks)
+	if a := s[aliasKey]; a != "" {
+		ks = append(ks, "hard-links:"+reRandomPart.ReplaceAllString(a, "#"))
+	}
 	return strings.Join(ks, " ")
 }
 
@@ -279,6 +398,13 @@ func extract(lines []string, dir string) ([]call, error) {
 
 // apply replays one call (writes only the first n bytes if n >= 0).
 func apply(st dirState, c call, n int) {
+	// what is written or cut through one name is written or cut in every
+	// name of the same file
+	same := func() {
+		for _, a := range st.aliases(c.path) {
+			st[a] = st[c.path]
+		}
+	}
 	switch c.name {
 	case "openat", "open", "creat":
 		if _, ok := st[c.path]; !ok {
@@ -287,6 +413,7 @@ func apply(st dirState, c call, n int) {
 			}
 		} else if c.trunc {
 			st[c.path] = ""
+			same()
 		}
 	case "write", "pwrite64":
 		d := c.data
@@ -294,15 +421,36 @@ func apply(st dirState, c call, n int) {
 			d = d[:n]
 		}
 		st[c.path] += d // sequential writes from offset 0 after O_TRUNC / fresh create
+		same()
 	case "ftruncate":
 		st[c.path] = ""
+		same()
 	case "rename", "renameat", "renameat2":
+		if _, ok := st[c.path]; !ok {
+			return
+		}
+		for _, a := range st.aliases(c.path) {
+			if a == c.path2 {
+				return // two names of one file: rename() does nothing and says it succeeded
+			}
+		}
+		st.unalias(c.path2)
 		st[c.path2] = st[c.path]
+		st.join(c.path2, c.path)
 		delete(st, c.path)
+		st.unalias(c.path)
 	case "link", "linkat":
+		if _, ok := st[c.path]; !ok {
+			return
+		}
+		if _, exists := st[c.path2]; exists {
+			return // EEXIST
+		}
 		st[c.path2] = st[c.path]
+		st.join(c.path2, c.path)
 	case "unlink", "unlinkat":
 		delete(st, c.path)
+		st.unalias(c.path)
 	}
 }
 
@@ -530,6 +678,10 @@ func runHistory(c *mon.Case, r *mon.Run, name string, steps []step, allTorn, val
 	pre := dirState{}
 	var id identity
 	for si, st := range steps {
+		prevIAT := map[string]bool{}
+		for k := range id.iat {
+			prevIAT[k] = true
+		}
 		res, ok := enumerate(c, r, work, pre, allTorn, validate, func(dir string) []string {
 			return append([]string{"obfs4-start", dir}, st.args...)
 		})
@@ -637,6 +789,46 @@ func runHistory(c *mon.Case, r *mon.Run, name string, steps []step, allTorn, val
 			c.Violation("bridgeline-file-disagrees/"+name, fmt.Sprintf("obfs4_bridgeline.txt does not contain cert=%s iat-mode=%s", res.out.Cert, res.out.IAT), nil)
 		} else {
 			r.Count("bridgeline_file_agrees", 1)
+		}
+		// two crashes in a row: from the states a crash of this start can leave
+		// (those that are neither what it began with nor what it ends with), a
+		// plain start is traced in turn, and every crash state of that one must
+		// start with the persisted identity as well
+		if id.cert != "" {
+			want := identity{cert: id.cert, iat: map[string]bool{res.out.IAT: true}}
+			for k := range prevIAT { // (what was persisted before this start stays admissible till this start has replaced it)
+				want.iat[k] = true
+			}
+			firstValid := false
+			chained := 0
+			for _, cs := range res.states {
+				if sf, ok := cs.st["obfs4_state.json"]; ok && json.Valid([]byte(sf)) && !cs.torn {
+					firstValid = true
+				}
+				if !firstValid || cs.torn || cs.st.equal(pre) || cs.st.equal(res.post) {
+					continue
+				}
+				if !r.Thorough() && cs.st[aliasKey] == "" && (cs.k+si)%3 != 0 {
+					continue
+				}
+				res2, ok2 := enumerate(c, r, work, cs.st, false, false, func(dir string) []string { return []string{"obfs4-start", dir} })
+				if !ok2 {
+					return
+				}
+				if !res2.out.OK || res2.out.Cert != id.cert {
+					continue // (reported by the judgement of the first crash state)
+				}
+				chained++
+				r.Count("second_starts_traced_on_crash_states", 1)
+				for _, cs2 := range res2.states {
+					if cs2.st.equal(cs.st) {
+						continue
+					}
+					cs2.desc = cs.desc + ", then a plain start crashed " + cs2.desc
+					r.Count("crash_states_after_two_crashes_judged", 1)
+					judgeStart(c, r, work, cs2, want, hist+"+crash+plain-start", si)
+				}
+			}
 		}
 		pre = res.post
 		if si == len(steps)-1 {
